@@ -1137,9 +1137,10 @@ class WcParse(Generic[AnyStr]):
                 if self.pathname:
                     raise StopIteration
                 value = c
-            elif c in SET_OPERATORS or c == '#':
+            elif c in SET_OPERATORS or c in ('#', '^'):
                 # Escape &, |, and ~ to avoid &&, ||, and ~~. Escape # so that a literal `(?#)` in a sequence cannot be
-                # mistaken for the internal capture group marker.
+                # mistaken for the internal capture group marker. Escape ^ so that it cannot turn into a negation when a
+                # removed (reversed) range leaves it at the front of the sequence.
                 value = '\\' + c
             else:
                 # Anything else
